@@ -167,11 +167,37 @@ def slot_writers(chk: Check, repo: Repo) -> None:
     setv = _stmts(cfg, lambda a: isinstance(a, ast.Assign) and any(ast.unparse(t) == "self.sensor_value.value" for t in a.targets))
     slot = _stmts(cfg, lambda a: isinstance(a, ast.Assign) and any(ast.unparse(t) == SLOT for t in a.targets))
     ok = ok and len(setv) == 1 and len(slot) == 1 and cfg.dominates(setv[0].id, slot[0].id)
+    # ... on every path: an exit between installing the value and aligning the slot leaves the old pending value to
+    # answer reads and to be re-sent when the cooldown ends
+    ok = ok and cfg.all_paths_hit(cfg.entry, [slot[0].id], ends=[cfg.exit], edge_ok=lambda a_, b_, lab: lab != "exc")
     chk.ob("initialize-value-leaves-nothing-pending", iv.site(), ok, "initialize_value installs the value, then makes the pending slot equal to the payload last 'on the bus' (nothing to send)", key="slot|initialize")
+
+
+def task_loop(chk: Check, repo: Repo) -> None:
+    """what the cooldown relies on in Task._start_internal: the wait comes first in every round, and the loop ends only
+    for `repeat_after is None` - the cooldown task is created with repeat_after=0 and has to keep looping (a truthiness
+    test would end it after the first deferred send: no cooldown follows that telegram)."""
+    f = repo.func("xknx.core.task_registry", "Task._start_internal")
+    chk.unit(f)
+    cfg = CFG(f.node)
+    mf = cfg.must_facts()
+    brk = [n for n in cfg.nodes if n.kind == "stmt" and isinstance(n.ast, ast.Break)]
+    ok_b = bool(brk) and all(any((a == "self.repeat_after is None" and v) or (a == "self.repeat_after is not None" and v is False) for a, v in mf[n.id]) for n in brk)
+    rets_in_loop = [n for n in cfg.nodes if n.kind == "stmt" and isinstance(n.ast, ast.Return) and n.loops and not any("connected" in a for a, v in mf[n.id])]
+    chk.ob("task-loop-ends-only-without-repeat", f.site(), ok_b and not rets_in_loop, "Task._start_internal leaves its loop only under `self.repeat_after is None` (repeat_after=0 keeps looping)" if ok_b and not rets_in_loop else f"Task._start_internal leaves its loop under {[sorted(mf[n.id]) for n in brk]} - repeat_after=0 must not end it", key="task|loop-exit")
+    waits = [n for n in cfg.nodes if n.kind == "stmt" and n.ast is not None and any(call_name(c) == "asyncio.sleep" and c.args and ast.unparse(c.args[0]) == "self.wait_before_start" for c in calls(n.ast))]
+    runs = [n for n in cfg.nodes if n.kind == "stmt" and n.ast is not None and any(call_name(c) == "self.target" for c in calls(n.ast))]
+    ok_w = len(waits) == 1 and bool(waits[0].loops) and bool(runs) and all(n.loops for n in runs)
+    if ok_w:
+        # on every path from the loop head to the target call the wait is passed whenever wait_before_start is set
+        guard = any((a == "self.wait_before_start" and v) for a, v in mf[waits[0].id])
+        ok_w = guard and all(cfg.all_paths_hit(cfg.entry, [waits[0].id] + [t.id for t in cfg.nodes if t.kind == "test" and t.ast is not None and ast.unparse(t.ast) == "self.wait_before_start"], ends=[r.id]) for r in runs)
+    chk.ob("task-waits-before-every-round", f.site(), ok_w, "Task._start_internal sleeps wait_before_start inside the loop, before the target of every round", key="task|wait-first")
 
 
 def run(chk: Check, repo: Repo) -> None:
     set_rules(chk, repo)
+    task_loop(chk, repo)
     cooldown_task_rules(chk, repo)
     read_and_periodic(chk, repo)
     slot_writers(chk, repo)
